@@ -9,6 +9,7 @@ CONSTANTS
   Panic = {"error"}
   BadInit = {"error"}
   PostShutdown = {"error"}
+  CancelDesign = "flag"
   SyncWire = FALSE
 VIEW view
 INVARIANTS TypeOK ExactlyOne AtMostOne NoOrphan NoLeak CancelAnswer NeverDead
